@@ -39,7 +39,7 @@ static int64_t weird64(hctx* h, int64_t v, int64_t fsize) {
     switch (h_below(h, 14)) {
     case 0: return 0; case 1: return -1; case 2: return v + 1; case 3: return v - 1; case 4: return fsize; case 5: return fsize - 1;
     case 6: return fsize + 1; case 7: return (int64_t)1 << 62; case 8: return INT64_MIN; case 9: return INT64_MAX; case 10: return 2147483647LL;
-    case 11: return 4294967296LL + v; case 12: return fsize - 8; default: return (int64_t)h_below(h, (uint64_t)(fsize > 0 ? fsize : 1));
+    case 11: return 4294967296LL + v; case 12: return fsize - 7 - (int64_t)h_below(h, 4); default: return (int64_t)h_below(h, (uint64_t)(fsize > 0 ? fsize : 1));
     }
 }
 static int32_t weird32(hctx* h, int32_t v) {
@@ -124,8 +124,19 @@ static blob mutate_page(hctx* h, blob base, char* desc, size_t dn) {
         if (hops-- <= 0 || off + hs + (size_t)ph.compressed_page_size >= end) break;
         off += hs + (size_t)ph.compressed_page_size;
     }
-    int which = (int)h_below(h, 12);
-    switch (which) {
+    int which = (int)h_below(h, 14);
+    long eof_delta = 0; int eof_directed = 0;
+    if (which >= 12) {
+        /* boundary-directed at the guard "the page body lies inside the file": make the body end exactly at,
+         * just before and just past the end of the FILE (not of the data region): offsets are taken relative
+         * to the last byte, so the footer is what gets overrun */
+        static const long deltas[] = { -1, 0, 1, 2, 7, 8 };
+        eof_directed = 1; eof_delta = deltas[h_below(h, 6)] + (h_chance(h, 1, 2) ? (long)hs : 0);
+        ph.compressed_page_size = (int32_t)((long)base.n - (long)(off + hs) + eof_delta);
+        if (h_chance(h, 1, 2)) ph.uncompressed_page_size = ph.compressed_page_size;
+        snprintf(desc, dn, "page.compressed_to_eof%+ld", eof_delta);
+    }
+    else switch (which) {
     case 0: { static const int t[] = { 1, 2, 3, 7, -1 }; ph.type = (carquet_page_type_t)t[h_below(h, 5)];
               if (ph.type == CARQUET_PAGE_DICTIONARY) { int32_t nv = ph.data_page_header.num_values; memset(&ph.dictionary_page_header, 0, sizeof ph.dictionary_page_header); ph.dictionary_page_header.num_values = nv; }
               snprintf(desc, dn, "page.type=%d", (int)ph.type); break; }
@@ -141,6 +152,17 @@ static blob mutate_page(hctx* h, blob base, char* desc, size_t dn) {
         carquet_arena_destroy(&arena); return r; }
     }
     carquet_buffer_t out; carquet_buffer_init(&out);
+    if (eof_directed) {
+        for (int pass = 0; pass < 3; pass++) {
+            carquet_buffer_clear(&out);
+            if (parquet_write_page_header(&ph, &out, NULL) != CARQUET_OK) break;
+            long newn = (long)base.n - (long)hs + (long)out.size;
+            int32_t want = (int32_t)(newn - (long)(off + out.size) + eof_delta - (eof_delta >= (long)hs ? (long)hs - (long)out.size : 0));
+            if (want == ph.compressed_page_size) break;
+            ph.compressed_page_size = want;
+        }
+        carquet_buffer_clear(&out);
+    }
     if (parquet_write_page_header(&ph, &out, NULL) == CARQUET_OK) {
         blob m; m.n = base.n - hs + out.size; m.b = h_alloc(m.n);
         memcpy(m.b, base.b, off); memcpy(m.b + off, out.data, out.size); memcpy(m.b + off + out.size, base.b + off + hs, base.n - off - hs);
@@ -277,7 +299,7 @@ static void exercise(hctx* h, blob f, int mode, const char* desc) {
     if (pid == 0) { close(p[0]); signal(SIGALRM, on_alarm_c04); alarm(10); child_exercise(path, f.b, f.n, mode, p[1]); _exit(0); }
     close(p[1]);
     char sum[300]; ssize_t got = read(p[0], sum, sizeof sum - 1); if (got < 0) got = 0; sum[got] = 0; close(p[0]);
-    for (char* c = sum; *c; c++) if (*c == ' ') *c = '_';
+    for (char* c = sum; *c; c++) if (*c == ' ' || *c == '=') *c = '_';
     int st = 0; waitpid(pid, &st, 0);
     int rc = WIFEXITED(st) ? WEXITSTATUS(st) : 1000 + WTERMSIG(st);
     fprintf(h->out, " | rc=%d sum=%s p_safe=%d\n", rc, sum[0] ? sum : "-", rc == 0);
